@@ -368,7 +368,8 @@ def _case(draw, tier):
     ut = draw(st.sampled_from(pool))
     controls, rules, ex2 = draw(_drivers(net))
     return {'net': net, 'u1': u1, 'u2': u2, 'ut': ut, 'style': draw(st.integers(0, 1)), 'controls': controls,
-            'rules': rules, 'run_w': draw(st.integers(0, 99)) < W_SHARE.get(tier, 100), 'excluded': sorted(set(ex_pre + ex + ex2))}
+            'rules': rules, 'run_w': draw(st.integers(0, 99)) < W_SHARE.get(tier, 100), 'excluded': sorted(set(ex_pre + ex + ex2)),
+            'prelude': draw(st.integers(0, 3)) == 0 and any(c['type'] == 'HEAD' for c in net['curves'].values())}
 
 
 def strategy(tier='quick'):
@@ -474,7 +475,30 @@ def build_model(case):
         rule = Rule(cond, [action(l, v) for l, v in r['then']], [action(l, v) for l, v in r['else']] or None,
                     priority=ControlPriority(r['priority']), name=r['name'])
         wn.add_control(r['name'], rule)
+    if case.get('prelude'):
+        _prelude(case, wn)
     return wn
+
+
+def _prelude(case, wn):
+    """the model has a past: it was simulated once (WNTRSimulator, one hydraulic step) while its head-pump curves had
+    other points, then the curves were re-assigned to the points of the spec and the model was reset.  Both engines
+    are compared on the model as it is now; anything cached from the first run must not survive."""
+    import wntr
+    net = case['net']
+    heads = [(n, c['pts']) for n, c in sorted(net['curves'].items()) if c['type'] == 'HEAD']
+    dur = wn.options.time.duration
+    for name, pts in heads:
+        wn.get_curve(name).points = [(q, 1.3 * h) for q, h in pts]
+    wn.options.time.duration = min(dur, wn.options.time.hydraulic_timestep)
+    try:
+        wntr.sim.WNTRSimulator(wn).run_sim()
+    except Exception:
+        pass
+    for name, pts in heads:
+        wn.get_curve(name).points = [(q, h) for q, h in pts]
+    wn.options.time.duration = dur
+    wn.reset_initial_values()
 
 
 class Tab(object):
@@ -1118,6 +1142,8 @@ def case_tags(case):
             tags.append('rule:' + r['join'].lower())
     if not case['controls'] and not case['rules']:
         tags.append('no_controls')
+    if case.get('prelude'):
+        tags.append('history:simulated_with_other_pump_curves_then_reassigned')
     tags += list(case.get('excluded', ()))
     return tags
 
